@@ -1014,3 +1014,42 @@ def check_order(run, rule, f, cfg, select):
                            "%s calls .%s(): elements of a clause list would be rendered out of order or dropped" % (name.rsplit("::", 1)[-1], c["name"]), sp=c.get("sp"), cfg=cfg)
     run.ob(rule, "order-census", True, "%d method calls in the selected renderers: no reordering/truncating adaptor on a clause list" % n, cfg=cfg)
     return n
+
+
+# ---- hook discipline ------------------------------------------------------------------------------------------------------
+
+def check_hooks(run, rule, f, cfg, select=None):
+    """an inner renderer listed in specs/hooks.json is called only from implementations of its hook (or of itself): any
+    other caller renders the construct without the backend overrides of the hook"""
+    table = json.load(open(os.path.join(VERIF, "specs", "hooks.json")))["entries"]
+    inner = {e["inner"]: e for e in table}
+    n = 0
+    seen = set()
+    overridden = {}
+    for imp in f.impls:
+        if imp.get("trait") and imp.get("self_adt") in L.BACKENDS.values():
+            for it in imp["items"]:
+                overridden.setdefault(it, set()).add(imp["self_adt"].rsplit("::", 1)[-1])
+    for name, fn in f.fns.items():
+        if fn.get("hir") is None:
+            continue
+        short = name.rsplit("::", 1)[-1]
+        for c in H.calls(fn["hir"]):
+            if c.get("k") != "mcall" or c["name"] not in inner:
+                continue
+            e = inner[c["name"]]
+            seen.add(c["name"])
+            if select is not None and not select(name) and short not in (e["hook"], e["inner"]):
+                continue
+            n += 1
+            ok = short in (e["hook"], e["inner"])
+            run.ob(rule, "hook:%s<-%s" % (c["name"], name), ok,
+                   "%s calls %s %s" % (short, c["name"], "as an implementation of the hook %s" % e["hook"] if ok else
+                                       "directly, bypassing the hook %s that %s override (%s)" % (e["hook"], ", ".join(sorted(overridden.get(e["hook"], []))) or "backends", e["reason"])),
+                   sp=c.get("sp"), cfg=cfg)
+    for k, e in inner.items():
+        if k not in seen:
+            run.anchor(rule, "hook:" + k, "inner renderer %s of specs/hooks.json is not called anywhere" % k, cfg)
+        elif not overridden.get(e["hook"]):
+            run.notes.append("hook %s is not overridden by any backend in config %s" % (e["hook"], cfg))
+    return n
